@@ -409,9 +409,19 @@ def run(ctx, model, focus):
             _check_decode_class(ctx, focus, d, bs, r)
 
     # ---- unbounded array over a zero-width element type (termination clause of C08)
-    for d in [("arr", ("all",), ("struct", [])), ("arr", ("all",), ("arr", ("fixed", 0), ("int", "sint", "SINT")))]:
+    # ... and over element types whose width depends on the data, so that they are zero-width only once the buffer is
+    # used up (an unbounded array inside an unbounded array, directly or as the first / only member of a structure)
+    usint = ("int", "usint", "USINT")
+    inner = ("arr", ("all",), usint)
+    for d in [("arr", ("all",), ("struct", [])), ("arr", ("all",), ("arr", ("fixed", 0), ("int", "sint", "SINT"))),
+              ("arr", ("all",), inner), ("arr", ("all",), ("arr", ("all",), inner)),
+              ("arr", ("all",), ("struct", [("body", inner, True)])),
+              ("arr", ("all",), ("struct", [("n", usint, True), ("body", inner, True)])),
+              ("arr", ("all",), ("arr", ("fixed", 2), ("struct", []))),
+              ("arr", ("all",), ("struct", [("e", ("struct", []), True)])),
+              ("struct", [("a", usint, True), ("rest", ("arr", ("all",), inner), True)])]:
         T = tygen.to_py(d)
-        for bs in (b"", b"\x01\x02"):
+        for bs in (b"", b"\x01\x02", b"\x01\x02\x03\x04\x05"):
             stream = BytesIO(bs)
             try:
                 core.with_budget(1.5, T.decode, stream)
@@ -420,7 +430,7 @@ def run(ctx, model, focus):
                 r = core.exn_class(e)
             ctx.case("dec-zero-width", (tygen.show(d), bs))
             ask("codec.dec %s %s" % (tygen.to_sx(d), sx.hexb(bs)),
-                _cb_dec(ctx, "dec-zero-width", d, bs, ("err", r) if r != "ok" else ("ok", None, 0)))
+                _cb_dec(ctx, "dec-zero-width", d, bs, ("err", r) if r != "ok" else impl_decode(T, bs)))
             if r == "hang":
                 _viol(ctx, focus, "C08", "unbounded-array-of-zero-width-elements-hangs",
                       {"op": "dec", "type": d, "bytes": bs.hex()}, "decode did not terminate within 1.5 s")
@@ -614,7 +624,7 @@ def replay(ctx, model, data, focus):
 def _detuple(x):
     """JSON turned the descriptor's tuples into lists: restore"""
     if isinstance(x, list):
-        if x and isinstance(x[0], str) and x[0] in ("bool", "int", "real", "lreal", "dt", "str", "stringn", "stringi",
+        if x and isinstance(x[0], str) and x[0] in ("bool", "int", "real", "lreal", "dt", "str", "stringn", "stringi", "stringi1",
                                                      "bits", "nbytes", "arr", "struct", "fstr", "stag", "ip",
                                                      "fixed", "pref", "all"):
             if x[0] == "struct":
